@@ -475,3 +475,35 @@ LEVEL_TEXT = ("Machine-checked proof (Coq 8.16) over an executable model of the 
 LEVEL_NOTE = ("Whole-connection robustness (handle_*_frame state machine, GOAWAY emission, worker liveness) is only tied by the "
               "source census of flood-accounting sites and the black-box tier; HPACK (loona-hpack) and kawa are outside the model.")
 TECHNIQUE = "Rocq/Coq proof over an executable Gallina model + source translators + differential correspondence (extracted OCaml vs real crate)"
+
+HARNESS_BINS = ["c15", "c15bb"]
+
+
+def extra_stage(tier, rng, work):
+    """Black-box connection tier: a real worker (HTTPS listener, ALPN h2, flood thresholds of 8 per window),
+    one scripted raw H2 client over TLS per scenario (62 in quick, more in thorough) in every connection state
+    (before the SETTINGS exchange, ready, stream open, half-closed, closed, after GOAWAY), all in parallel;
+    oracle: the prescribed GOAWAY / RST_STREAM code (or handled: PING still acknowledged), release of the
+    connection after a connection error, worker thread alive, a concurrent well-behaved probe still served."""
+    res = dict(failures=[], viols=[], coverage={})
+    rc, o, e, dt = vlib.sh([vlib.harness_path("c15bb"), "thorough" if tier == "thorough" else "quick"], timeout=180, cwd=work)
+    if rc != 0:
+        res["failures"].append("c15bb: exit %d %s" % (rc, (o + e)[-300:]))
+        return res
+    lines = o.splitlines()
+    done = [l for l in lines if l.startswith("obs done")]
+    if not done:
+        res["failures"].append("c15bb did not finish: %s" % o[-300:])
+    n = 0
+    for l in lines:
+        if l.startswith("obs ") and not l.startswith("obs done"):
+            n += 1
+        if l.startswith("viol "):
+            p = l.split(" ", 2)
+            name = (p[2].split(":")[0] if len(p) > 2 else "bb").strip().replace(" ", "_")
+            name = name if re.fullmatch(r"[A-Za-z_][A-Za-z0-9_]*", name) else "scenario"
+            c = Case("bb_" + name, [["blackbox", name]], dict(kind="blackbox"))
+            res["viols"].append((c, p[1], p[2] if len(p) > 2 else ""))
+    res["coverage"] = dict(blackbox_scenarios=n, blackbox_seconds=round(dt, 1), blackbox_summary=(done[0] if done else ""),
+                           blackbox_rule="harness/src/bin/c15bb.rs: scripted raw H2 client over TLS vs a real worker; per scenario the prescribed error code / handled, connection released, worker alive, probe served")
+    return res
